@@ -6,6 +6,8 @@ package comp
 //
 // Op language (one line per op; also the replay format). Slots stand for entity addresses
 // (0=[0] device information, 1=[1], 2=[2], 3=[1,1], 4=[3]); peers are 0..2.
+//   world ABC         (first op only) one digit per peer: 1 = the peer's connection cannot be written to
+//                     (SetupRemoteDevice with a nil writer: every send to it returns an error); default 000
 //   renew K ET        NewEntityLocal for slot K with entity type index ET (a fresh object)
 //   attach K          DeviceLocal.AddEntity        detach K   DeviceLocal.RemoveEntity
 //   feat K T R        GetOrAddFeature(type T, role R) on slot K      next K   NextFeatureId
@@ -293,6 +295,7 @@ type ltrWorld struct {
 	es    map[int]*spine.EntityLocal
 	gs    map[int]*ltrGate
 	peers []*ltrPeer
+	fails []bool // per peer: its connection cannot be written to
 }
 
 // ent is the object handed to AddEntity / RemoveEntity for a slot
@@ -308,9 +311,9 @@ func (lw *ltrWorld) newEnt(k int, et model.EntityTypeType) {
 	lw.gs[k] = &ltrGate{EntityLocal: lw.es[k]}
 }
 
-func newLtrWorld() *ltrWorld {
+func newLtrWorld(fails []bool) *ltrWorld {
 	l := spine.NewDeviceLocal("b", "m", "s", "c", "HEMS", model.DeviceTypeTypeEnergyManagementSystem, model.NetworkManagementFeatureSetTypeSmart)
-	lw := &ltrWorld{l: l, es: map[int]*spine.EntityLocal{}, gs: map[int]*ltrGate{}}
+	lw := &ltrWorld{l: l, es: map[int]*spine.EntityLocal{}, gs: map[int]*ltrGate{}, fails: fails}
 	lw.es[0] = l.Entity(spine.NewAddressEntityType([]uint{0})).(*spine.EntityLocal)
 	for k := 1; k < len(ltrSlots); k++ {
 		lw.newEnt(k, ltrETypes[0])
@@ -318,7 +321,11 @@ func newLtrWorld() *ltrWorld {
 	for p := 0; p < 3; p++ {
 		pe := &ltrPeer{w: &h.W{}, dev: fmt.Sprintf("dev%d", p), ctr: 10}
 		ski := fmt.Sprintf("ski%d", p)
-		l.SetupRemoteDevice(ski, pe.w)
+		if p < len(fails) && fails[p] {
+			l.SetupRemoteDevice(ski, nil) // no writer: the Sender of this connection returns an error for every message
+		} else {
+			l.SetupRemoteDevice(ski, pe.w)
+		}
 		pe.rd = l.RemoteDeviceForSki(ski)
 		lw.peers = append(lw.peers, pe)
 		nm := h.FA(pe.dev, []uint{0}, 0)
@@ -439,9 +446,20 @@ func ltrAtoi(f []string) []int {
 
 // runLtrHistory executes one history of the tree part on a fresh world.
 func runLtrHistory(r *h.Report, d *h.Driver, ops []string) {
-	lw := newLtrWorld()
+	fails := make([]bool, 3)
+	if len(ops) > 0 && strings.HasPrefix(ops[0], "world ") {
+		fl := strings.Fields(ops[0])
+		if len(fl) != 2 || len(fl[1]) != 3 || strings.Trim(fl[1], "01") != "" {
+			panic("bad op " + ops[0])
+		}
+		for i, c := range fl[1] {
+			fails[i] = c == '1'
+		}
+	}
+	lw := newLtrWorld(fails)
 	defer lw.close()
 	d.Ask("reset")
+	ucData := false // SPEC side: use-case data exists (set by the first AddUseCaseSupport)
 	d.Mark()
 	bk := &ltrBk{pool: map[int]*ltrBkEnt{}, attached: []int{0}, subs: map[int]bool{}}
 	{
@@ -460,9 +478,20 @@ func runLtrHistory(r *h.Report, d *h.Driver, ops []string) {
 	}
 	monitor := true
 	var done []string
-	for _, op := range ops {
+	for i, op := range ops {
 		f := strings.Fields(op)
 		if len(f) == 0 {
+			continue
+		}
+		if f[0] == "world" {
+			if i != 0 {
+				panic("world must be the first op")
+			}
+			done = append(done, op)
+			if a := d.Ask(op); a != "ok" {
+				panic("driver: " + a)
+			}
+			r.Eval("world:"+f[1], "")
 			continue
 		}
 		held, heldP, heldK := false, -1, -1
@@ -741,9 +770,17 @@ func runLtrHistory(r *h.Report, d *h.Driver, ops []string) {
 				}
 			}
 			if monitor {
-				want := 0
-				if bk.subs[p] {
+				// a peer whose connection fails can receive nothing; every other subscriber must be served
+				// regardless of the failures of the peers before or after it in the subscription order
+				want, wantUc := 0, 0
+				if bk.subs[p] && !fails[p] {
 					want = 1
+					if f[0] == "adduc" || (f[0] == "detach" && ucData) {
+						wantUc = 1
+					}
+				}
+				if rc.ucN != wantUc && (bk.subs[p] || fails[p]) {
+					fail("use-case-notification-count", fmt.Sprintf("after %s peer %d (subscribed=%v, connection fails=%v) received %d use-case notifications, expected %d", op, p, bk.subs[p], fails[p], rc.ucN, wantUc))
 				}
 				if f[0] == "attach" && nAdded != want {
 					fail("add-entity-notification-count", fmt.Sprintf("AddEntity(%s): peer %d (subscribed=%v) received %d 'added' notifications", h.EntU(ltrSlots[a[0]]), p, bk.subs[p], nAdded))
@@ -755,7 +792,7 @@ func runLtrHistory(r *h.Report, d *h.Driver, ops []string) {
 					fail("notification-to-unsubscribed-peer", fmt.Sprintf("after %s peer %d, not subscribed to node management, received %d discovery and %d use-case notifications", op, p, len(rc.notifies), rc.ucN))
 				}
 				wantReplies := 0
-				if (f[0] == "read" && p == a[0]) || (held && p == heldP) {
+				if ((f[0] == "read" && p == a[0]) || (held && p == heldP)) && !fails[p] {
 					wantReplies = 1
 				}
 				if len(rc.replies) != wantReplies {
@@ -769,6 +806,9 @@ func runLtrHistory(r *h.Report, d *h.Driver, ops []string) {
 				}
 				obs = append(obs, ltrReply(r, lw, bk, p, dg, monitor, done, alts))
 			}
+		}
+		if f[0] == "adduc" {
+			ucData = true
 		}
 		impl := ltrSortJoin(obs)
 		line := op
@@ -906,11 +946,24 @@ func ltrGenHistory(rng *rand.Rand, n int) []string {
 		nextID[k] = 1
 		feats[k] = nil
 	}
-	emit("sub 0")
-	subs[0] = true
+	// writer faults as a dimension: in half of the histories one or two peers have a connection that cannot be
+	// written to; the subscription order is permuted so that a failing peer comes first, in the middle or last
 	if rng.Intn(2) == 0 {
-		emit("sub 2")
-		subs[2] = true
+		fl := []byte("000")
+		fl[rng.Intn(3)] = '1'
+		if rng.Intn(3) == 0 {
+			fl[rng.Intn(3)] = '1'
+		}
+		ops = append([]string{"world " + string(fl)}, ops...)
+	}
+	perm := rng.Perm(3)
+	nsub := 1 + rng.Intn(3)
+	if rng.Intn(3) > 0 && nsub < 2 {
+		nsub = 2
+	}
+	for _, p := range perm[:nsub] {
+		emit(fmt.Sprintf("sub %d", p))
+		subs[p] = true
 	}
 	pickFeat := func(k int) int {
 		if len(feats[k]) == 0 || rng.Intn(12) == 0 {
@@ -1406,6 +1459,11 @@ func TestLocalTree(t *testing.T) {
 	corpus = append(corpus,
 		[]string{"sub 0", "renew 1 1", "renew 2 2", "renew 4 3", "feat 1 2 0", "feat 2 3 0", "feat 4 0 0", "attach 1", "attach 2", "attach 4", "read 1", "readheld 1 1 detach 2", "read 1", "readheld 2 4 attach 2", "read 0", "readheld 0 1 detach 1", "read 1"},
 		[]string{"renew 1 1", "renew 2 2", "renew 3 3", "attach 3", "attach 2", "attach 1", "readheld 1 3 detach 3", "readheld 1 2 detach 1", "readheld 1 2 attach 3", "readheld 0 1 attach 1", "read 1"})
+	// a failing connection first / in the middle / last among three subscribers: the others are served all the same
+	for _, w := range [][]string{{"world 100", "sub 0", "sub 1", "sub 2"}, {"world 010", "sub 0", "sub 1", "sub 2"}, {"world 001", "sub 0", "sub 1", "sub 2"},
+		{"world 110", "sub 1", "sub 2", "sub 0"}, {"world 011", "sub 2", "sub 0", "sub 1"}} {
+		corpus = append(corpus, append(append([]string{}, w...), "renew 1 1", "feat 1 0 1", "fn 1 1 0 1 1", "attach 1", "adduc 1", "read 0", "read 1", "read 2", "detach 1", "renew 2 2", "attach 2", "readheld 2 2 detach 2"))
+	}
 	for _, c := range corpus {
 		runLtrHistory(r, d, c)
 	}
@@ -1422,6 +1480,13 @@ func TestLocalTree(t *testing.T) {
 		fnAll := r.Dist["fn:added"] + r.Dist["fn:client"] + r.Dist["fn:again"] + r.Dist["fn:no-such-feature"]
 		r.Floor("AddFunctionType calls that added a function", r.Dist["fn:added"], fnAll, 0.30)
 		r.Floor("entity additions and removals among the ops", r.Dist["attach"]+r.Dist["detach"]+r.Dist["readheld:attach"]+r.Dist["readheld:detach"], r.Evaluations, 0.04)
+		nw := 0
+		for k, v := range r.Dist {
+			if strings.HasPrefix(k, "world:") {
+				nw += v
+			}
+		}
+		r.Floor("histories with a peer whose connection fails", nw, h.Scale(1500, 15000), 0.30)
 		r.Floor("entity additions and removals overlapping a held read", r.Dist["readheld:attach"]+r.Dist["readheld:detach"], r.Dist["attach"]+r.Dist["detach"]+r.Dist["readheld:attach"]+r.Dist["readheld:detach"], 0.08)
 	}
 
